@@ -80,6 +80,10 @@ FAMILY = [
     # the content type a template falls back to when its body does not
     # declare one decides between HTML and XML compilation
     ("default_content_type", None, "text/xml", '<input type="checkbox" checked="${c}" /><p>${name}</p>', "PageTemplate", "PageTemplate"),
+    # not an option either: the versions of the installed distributions (an
+    # add-on that provides an expression type is upgraded between two runs
+    # of the application)
+    ("package_version", "1.0", "2.0", '<p tal:content="shout:name">x</p>', "PageTemplate", "PageTemplate"),
     # not an option at all: the names the process had in ``builtins`` when
     # it imported chameleon (gettext.install() in one of two applications
     # sharing the directory) decide how a free name is compiled
@@ -199,6 +203,27 @@ class QuoteExpr:
             closing=ast.Constant(self.closing))
 
 
+EXT_VERSION = ["1.0"]      # version of the add-on the running process has
+
+
+class ShoutExpr:
+    """``shout:expr`` - provided by an add-on distribution; what it compiles
+    to changed between the add-on's versions 1.0 and 2.0 (the class, its
+    module and its qualified name did not)."""
+
+    def __init__(self, expression):
+        self.expression = expression
+
+    def __call__(self, target, engine):
+        import ast
+        from chameleon.codegen import template
+        compiler = engine.parse(self.expression)
+        body = compiler.assign_value(target)
+        return body + template(
+            "target = str(target).upper() + mark", target=target,
+            mark=ast.Constant("!" if EXT_VERSION[0] == "1.0" else "?"))
+
+
 def make_mark(mark: str):
     """A factory of expression-type classes: every class it returns has the
     same module and the same qualified name."""
@@ -284,6 +309,10 @@ class C15(CheckBase):
         for k, v in spec.get("config", {}).items():
             if k == "process_builtins":
                 continue
+            if k == "package_version":
+                cfg["expression_types"] = dict(
+                    self.zt.PageTemplate.expression_types, shout=ShoutExpr)
+                continue
             k = OPTION_OF.get(k, k)
             if k in SET_OPTIONS and v is not None:
                 v = set(v)
@@ -317,6 +346,8 @@ class C15(CheckBase):
         cls = self._cls(spec["cls"])
         if spec.get("config", {}).get("process_builtins"):
             cls = self._knows_builtin(cls)
+        if spec.get("config", {}).get("package_version"):
+            cls = self._with_addon(cls, spec["config"]["package_version"])
         cfg = self._config(spec)
         if loader is not None:
             cfg["loader"] = loader
@@ -345,6 +376,45 @@ class C15(CheckBase):
             Knows.__qualname__ = cls.__qualname__
             Knows.__module__ = cls.__module__
             k = self._gb_classes[cls] = Knows
+        return k
+
+    def _with_addon(self, cls, version: str):
+        """The same class in a process where the add-on distribution
+        'verif-ext' is installed in the given version: while it compiles,
+        the installed-distribution metadata says so, the add-on's code is
+        that version's, and the process's memo of the package digest is its
+        own."""
+        key = (cls, version)
+        k = self._gb_classes.get(key)
+        if k is None:
+            import chameleon.template as tm
+
+            class WithAddon(cls):
+                def cook(self, body):
+                    md = tm.importlib_metadata
+                    old_pd, old_v = md.packages_distributions, md.version
+                    old_memo, old_ext = tm._pkg_digest, EXT_VERSION[0]
+
+                    def pd():
+                        d = dict(old_pd())
+                        d["verif_ext"] = ["verif-ext"]
+                        return d
+
+                    def ver(name):
+                        return version if name == "verif-ext" else old_v(name)
+                    md.packages_distributions, md.version = pd, ver
+                    tm._pkg_digest = None
+                    EXT_VERSION[0] = version
+                    try:
+                        return super().cook(body)
+                    finally:
+                        md.packages_distributions, md.version = old_pd, old_v
+                        tm._pkg_digest = old_memo
+                        EXT_VERSION[0] = old_ext
+            WithAddon.__name__ = cls.__name__
+            WithAddon.__qualname__ = cls.__qualname__
+            WithAddon.__module__ = cls.__module__
+            k = self._gb_classes[key] = WithAddon
         return k
 
     def reference(self, spec: dict, world: World) -> list:
@@ -453,14 +523,14 @@ class C15(CheckBase):
             case["family"] = name
             case["templates"] = [ta, tb]
             mode = ch.pick(["same", "restart", "two"], "mode")
-            if name == "process_builtins":
-                mode = "restart"    # (one snapshot per process)
+            if name in ("process_builtins", "package_version"):
+                mode = "restart"    # (one snapshot / installation per process)
             # a live instance is given the other configuration (attribute
             # assignment, then write(body)): possible when both are string
             # templates of one class and the target passes every option in
             # which they differ
             ca_, cb_ = ta["config"], tb["config"]
-            if name != "process_builtins" and \
+            if name not in ("process_builtins", "package_version") and \
                     "file" not in ta and ta["cls"] == tb["cls"] and \
                     all(k in cb_ and cb_[k] is not None
                         for k in set(ca_) | set(cb_) if ca_.get(k) != cb_.get(k)) \
